@@ -1,8 +1,11 @@
-// Harness for C15 (paged iteration; logical core): builds REAL gocql Iter / nextIter / framer chains
-// for scripted pages (through the hook file) and consumes them with the real Scan, Scanner, MapScan and
-// SliceMap; checks AST-level expectations on the next-page query construction in conn.go executeQuery
-// and on the page-switch code in session.go. Answers are compared with the Lean model
-// (lean/Model/Paging.lean).
+// Harness for C15 (paged iteration). Two tiers, both compared with the Lean model (lean/Model/Paging.lean):
+//   - session tier (session.go, ops `sess` / `sessx`): a real gocql.Session runs a paged query against a
+//     scripted in-memory node; observed: rows + final error at the application, requests at the node.
+//   - Iter tier (op `iter`): REAL gocql Iter / nextIter / framer chains for scripted pages (built through
+//     the hook file) consumed with the real Scan, Scanner, MapScan and SliceMap, without a server.
+//
+// Plus AST-level expectations (op `ast`) on the next-page query construction in conn.go executeQuery and
+// on the page-switch code in session.go.
 package main
 
 import (
@@ -125,6 +128,8 @@ func exec(op string) (res string) {
 		return fmt.Sprintf("rows=%s err=%s", showRows(rows), errStr(err))
 	case "ast":
 		return astFacts()
+	case "sess", "sessx":
+		return execSess(op)
 	}
 	return "bad-op"
 }
@@ -301,5 +306,6 @@ func main() {
 		}
 		emit(c, pages, cls)
 	}
-	out.Close(nil)
+	extra := sessionTier(r, out, tier)
+	out.Close(extra)
 }
